@@ -218,6 +218,8 @@ class Ctx:
                     self.log("warning: uvdriver not relinked, unrelated modules fail:", sorted(failed))
                 else:
                     ok, log = False, dlog
+        if driver:
+            self._snapshot_driver()
         if not ok:
             # find which modules failed
             failed = re.findall(r"^- (\S+)", log, re.M) or ["?"]
@@ -276,8 +278,22 @@ class Ctx:
             out[m.group(1)] = []
         return out
 
+    def _snapshot_driver(self):
+        """private copy of the linked driver, taken under the lake lock (others may relink it any time)"""
+        src = LEAN / ".lake/build/bin/uvdriver"
+        dst = self.tmp / "uvdriver"
+        try:
+            with Locked(LEAN / ".lakelock"):
+                if src.exists():
+                    shutil.copy2(src, dst)
+        except OSError:
+            pass
+        return dst if dst.exists() else src
+
     def driver(self, args, text, timeout=600):
-        exe = LEAN / ".lake/build/bin/uvdriver"
+        exe = self.tmp / "uvdriver"
+        if not exe.exists():
+            exe = self._snapshot_driver()
         r = subprocess.run([str(exe)] + list(args), input=text, stdout=subprocess.PIPE,
                            stderr=subprocess.PIPE, text=True, timeout=timeout)
         if r.returncode != 0:
